@@ -86,7 +86,12 @@ class Check:
 
     # ------------------------------------------------------------- recording
     def ob(self, rule: str, site: Site, ok: bool, detail: str = "") -> bool:
-        self.obligations.append(Obligation(f"{self.pid}-{rule}" if not rule.startswith(self.pid) else rule, site, bool(ok), detail))
+        o = Obligation(f"{self.pid}-{rule}" if not rule.startswith(self.pid) else rule, site, bool(ok), detail)
+        key = (o.rule, o.site.file, o.site.line, o.site.function, o.site.construct, o.ok, o.detail)
+        seen = self.__dict__.setdefault("_seen_obs", set())
+        if key not in seen:  # the same obligation reached along several paths is one obligation
+            seen.add(key)
+            self.obligations.append(o)
         return bool(ok)
 
     def analysed(self, *funcs: t.Union[Func, str]) -> None:
